@@ -204,6 +204,25 @@ CHECKS["C01"] = dict(
 PENDING = {}
 
 
+# round-12 extensions of the workloads (DESIGN §10.5)
+for _pid, _more in {
+    "C02": " A payload with two rules entries is run in both orders: roots and exit code follow the worst entry.",
+    "C04": " Keys and rule names that begin like a keyword (`origin`, `ORDER`, `order_ok`, `notes`, `inner`, `somekey`, `letter`) start clause lines in every line order of eight groups.",
+    "C05": " A rules directory given together with some of the files inside it (json, junit, console) is run repeatedly and the order of the reports compared.",
+    "C06": " A rule name defined twice (adjacent and split by another rule) x expectation SKIP / FAIL / PASS x plain / json / junit must be judged as one rule.",
+    "C08": " rulegen also receives ill-kinded templates (Type a number / list / map / null, Properties a list / string / null, Resources a list).",
+    "C09": " Rules files without named rules (library files) next to skipping / passing files in both orders: the file status follows the compliant / not_compliant / not_applicable lists.",
+    "C10": " 35% of the YAML fractions are written without the leading zero (`.75`, `-.25`).",
+    "C11": " Quoted number-, bool- and null-looking arguments (`'8080'`, \"true\", `'null'`, `'~'`) go through every single-value short form.",
+    "C12": " The `Status =` header of every (rules, data) block of a plain `--show-summary all` batch run must equal the pair's stand-alone status.",
+    "C14": " List and struct literals are also laid out comma-first (line break or comment before the comma, comma on its own line).",
+    "C15": " 13 built-in functions applied to literals: parameterised call vs in place vs rule-level let vs file-level let.",
+    "C17": " 30% of the runs insert an empty-map parameter file at a random position.",
+    "C19": " 40% of the list / map property values embed a string with unusual content (runs of blanks, backslash, tab, quotes, non-ASCII).",
+}.items():
+    CHECKS[_pid]["text"] += _more
+
+
 def main():
     props = [json.loads(l) for l in open(os.path.join(core.VERIF, "properties.jsonl"))]
     checks = []
